@@ -5,7 +5,7 @@
 From Coq Require Import ZArith List Lia Bool.
 From GH Require Import Base.GoSem Base.Result Base.FloatBits Base.TimeSem Base.Utf8 Gen.GoConsts Gen.GoLeaf
   Model.Scalars Model.Strings Spec.Grammar Model.Encoder Model.Decoder Model.Session
-  Proofs.IntProofs Proofs.KindProofs Proofs.StringProofs Proofs.BinaryProofs Proofs.DateProofs Proofs.FloatFacts Proofs.DoubleProofs Proofs.SpecScalars Proofs.EncoderFacts Proofs.SessionProofs Proofs.StructFacts
+  Proofs.IntProofs Proofs.LongProofs Proofs.KindProofs Proofs.StringProofs Proofs.BinaryProofs Proofs.DateProofs Proofs.FloatFacts Proofs.DoubleProofs Proofs.SpecScalars Proofs.EncoderFacts Proofs.SessionProofs Proofs.StructFacts
   Proofs.EncSpec.
 Import ListNotations.
 Open Scope Z_scope.
@@ -104,14 +104,44 @@ Fixpoint need_d (v : gval) : nat :=
   match v with
   | VStruct _ _ fs =>
     3 + (fix go (l : list (name * gval)) : nat := match l with [] => 1 | (_, x) :: r => 1 + Nat.max (need_d x) (go r) end) fs
+  | VSlice _ _ l => 2 + (fix go (l : list gval) : nat := match l with [] => 1 | x :: r => 1 + Nat.max (need_d x) (go r) end) l
   | VBytes _ => 2
   | _ => 1
   end%nat.
 Fixpoint need_ditems (l : list gval) : nat := match l with [] => 1 | x :: r => 1 + Nat.max (need_d x) (need_ditems r) end%nat.
 Lemma need_d_struct a ty fs : need_d (VStruct a ty fs) = (3 + need_ditems (map snd fs))%nat.
 Proof. cbn [need_d]. apply (f_equal (fun k => (3 + k)%nat)). induction fs as [|[n x] r IH]; cbn [map snd need_ditems]; [reflexivity|]. rewrite <- IH. reflexivity. Qed.
+Lemma need_d_slice a ty l : need_d (VSlice a ty l) = (2 + need_ditems l)%nat.
+Proof. cbn [need_d]. apply (f_equal (fun k => (2 + k)%nat)). induction l as [|x r IH]; cbn [need_ditems]; [reflexivity|]. rewrite <- IH. reflexivity. Qed.
 Lemma need_d_pos v : (1 <= need_d v)%nat.
 Proof. destruct v; cbn [need_d]; lia. Qed.
+
+Lemma take_n_app_exact : forall n r x rest, take_n n r = Some (x, []) -> take_n n (r ++ rest) = Some (x, rest).
+Proof.
+  induction n as [|n IH]; intros r x rest H; cbn [take_n] in *.
+  - inversion H; subst. reflexivity.
+  - destruct r as [|b r0]; [discriminate|]. cbn [app]. destruct (take_n n r0) as [[x0 r1]|] eqn:E; [|discriminate].
+    inversion H; subst. rewrite (IH _ _ rest E). reflexivity.
+Qed.
+Lemma read_full_app_exact n r x rest : read_full n r = Ok (x, []) -> read_full n (r ++ rest) = Ok (x, rest).
+Proof.
+  unfold read_full. destruct n as [|n]; [intros H; inversion H; subst; reflexivity|].
+  destruct r as [|b r0]; [discriminate|]. cbn [app]. destruct (take_n (S n) (b :: r0)) as [[x0 r1]|] eqn:E; [|discriminate].
+  intros H. inversion H; subst. change (b :: r0 ++ rest) with ((b :: r0) ++ rest). rewrite (take_n_app_exact _ _ _ rest E). reflexivity.
+Qed.
+Lemma decode_double_ext bs d : decode_double bs = Ok (d, []) -> forall rest, decode_double (bs ++ rest) = Ok (d, rest).
+Proof.
+  unfold decode_double. destruct bs as [|t r]; [discriminate|]. cbn [read_tag bind app]. unfold decode_double_tag. intros H rest.
+  destruct (t =? g_doubleZeroTag); [inversion H; subst; reflexivity|]. destruct (t =? g_doubleOneTag); [inversion H; subst; reflexivity|].
+  destruct (t =? g_doubleOneByteTag).
+  { destruct r as [|b r0]; [discriminate|]. cbn [read_tag bind app] in *. inversion H; subst. reflexivity. }
+  destruct (t =? g_doubleTwoByteTag).
+  { destruct (read_full 2 r) as [[bf r']| | |] eqn:E; try discriminate. cbn [bind] in H. inversion H; subst. rewrite (read_full_app_exact _ _ _ rest E). reflexivity. }
+  destruct (t =? g_doubleFourByteTag).
+  { destruct (read_full 4 r) as [[bf r']| | |] eqn:E; try discriminate. cbn [bind] in H. inversion H; subst. rewrite (read_full_app_exact _ _ _ rest E). reflexivity. }
+  destruct (t =? g_doubleLongStartTag); [|discriminate].
+  destruct (read_full 8 r) as [[bf r']| | |] eqn:E; try discriminate. cbn [bind] in H. inversion H; subst. rewrite (read_full_app_exact _ _ _ rest E). reflexivity.
+Qed.
 
 Section RT.
 Variable nm : namemap.
@@ -131,6 +161,9 @@ Inductive sgv : gtype -> gval -> Prop :=
 | sg_f64 b : in_f64 b -> sgv TF64 (VF64 b)
 | sg_bytes bs : sgv TBytes (VBytes bs)
 | sg_time s n : year_ok s -> 0 <= n < 1000000000 -> sgv TTime (VTime s n)
+| sg_slice ty l e ltn : nm_lookup nm ty = Some ltn -> name_eqb interface_type_name (array_root_elem_name ty) = false ->
+    tm_lookup tm ltn = Some (TSlice e) -> Forall valid_rune ltn -> e <> TIface -> Z.of_nat (length l) <= 2147483647 ->
+    Forall (sgv e) l -> sgv (TSlice e) (VSlice 0 ty l)                           (* a list not shared with another position *)
 | sg_nilptr n : sgv (TPtr (TStruct n)) VNil
 | sg_seen a : sgv (TPtr (TStruct (ty_of a))) (VSeen RStruct a)
 | sg_struct a ty fs c gfs : a <> 0 -> ty_of a = ty -> nm_lookup nm ty = Some c -> tm_lookup tm c = Some (TStruct ty) ->
@@ -155,18 +188,21 @@ Inductive dg : list (Z * rkind) -> gval -> dval -> list rcell -> list (Z * rkind
 | dg_new refs a ty fs ds cells refs' : ref_find refs a RStruct 0 = None ->
     dgs (refs ++ [(a, RStruct)]) (map snd fs) ds cells refs' ->
     dg refs (VStruct a ty fs) (DPtr (length refs) ty) (RObj ty (Some (combine (map fst fs) ds)) :: cells) refs'
+| dg_slice refs ty l e ds cells refs' : dgs (refs ++ [(0, RSlice)]) l ds cells refs' ->
+    dg refs (VSlice 0 ty l) (DSlice e ds) (RList (Some (DSlice e ds)) :: cells) refs'
 with dgs : list (Z * rkind) -> list gval -> list dval -> list rcell -> list (Z * rkind) -> Prop :=
 | dgs_nil refs : dgs refs [] [] [] refs
 | dgs_cons refs x r d ds c1 c2 refs1 refs2 : dg refs x d c1 refs1 -> dgs refs1 r ds c2 refs2 ->
     dgs refs (x :: r) (d :: ds) (c1 ++ c2) refs2.
 
+Definition ref_tag (p : Z * rkind) : option name := match snd p with RStruct => Some (ty_of (fst p)) | _ => None end.
 Definition Inv (st : estate) (dst : dstate) : Prop :=
-  dcls dst = ecls st /\ map cell_ty (dheap dst) = map (fun p => Some (ty_of (fst p))) (erefs st).
+  dcls dst = ecls st /\ map cell_ty (dheap dst) = map ref_tag (erefs st).
 Lemma Inv_len st dst : Inv st dst -> length (dheap dst) = length (erefs st).
 Proof. intros [_ H]. rewrite <- (map_length cell_ty), H, map_length. reflexivity. Qed.
-Lemma Inv_nth st dst i a k : Inv st dst -> nth_error (erefs st) i = Some (a, k) -> exists o, nth_error (dheap dst) i = Some (RObj (ty_of a) o).
+Lemma Inv_nth st dst i a : Inv st dst -> nth_error (erefs st) i = Some (a, RStruct) -> exists o, nth_error (dheap dst) i = Some (RObj (ty_of a) o).
 Proof.
-  intros [_ H] N. pose proof (map_nth_error (fun p => Some (ty_of (fst p))) i (erefs st) N) as M. cbn in M. rewrite <- H in M.
+  intros [_ H] N. pose proof (map_nth_error ref_tag i (erefs st) N) as M. cbn in M. rewrite <- H in M.
   destruct (nth_error (dheap dst) i) as [c|] eqn:E.
   - rewrite (map_nth_error cell_ty i (dheap dst) E) in M. inversion M as [M']. destruct c; try discriminate. cbn in M'. inversion M'. eexists; reflexivity.
   - apply nth_error_None in E. assert (nth_error (map cell_ty (dheap dst)) i = None) by (apply nth_error_None; rewrite map_length; exact E). congruence.
@@ -174,12 +210,13 @@ Qed.
 
 Definition rt_post (t : gtype) (v : gval) (st st' : estate) : Prop :=
   cls_ok F (ecls st') /\ enm st' = enm st /\ grows st st' /\
-  exists bs d cells, ebytes st' = ebytes st ++ bs /\ dg (erefs st) v d cells (erefs st') /\
+  exists bs d cells, ebytes st' = ebytes st ++ bs /\ (1 <= length bs)%nat /\ dg (erefs st) v d cells (erefs st') /\
     (small st' -> forall dst rest, Inv st dst ->
-       exists dst', Inv st' dst' /\ dheap dst' = dheap dst ++ cells /\ dtypes dst' = dtypes dst /\
+       exists dst', Inv st' dst' /\ dheap dst' = dheap dst ++ cells /\
        forall f, (need_d v <= f)%nat ->
          R_rf (readers_at te tm f) t dst (bs ++ rest) = Ok (d, rest, dst') /\
-         (forall a ty fs, v = VStruct a ty fs -> R_rd (readers_at te tm f) dst (bs ++ rest) = Ok (d, rest, dst'))).
+         (forall a ty fs, v = VStruct a ty fs -> R_rd (readers_at te tm f) dst (bs ++ rest) = Ok (d, rest, dst')) /\
+         (t <> TIface -> elem_step te (readers_at te tm f) t dst (bs ++ rest) = Ok (d, rest, dst'))).
 Definition rt_ok (v : gval) : Prop := forall t st st',
   enm st = nm -> sgv t v -> cls_ok F (ecls st) -> write_data v st = Ok st' -> rt_post t v st st'.
 
@@ -194,15 +231,89 @@ Proof. reflexivity. Qed.
 
 (* a scalar leaf: one emit, tables untouched *)
 Lemma rt_leaf t v st bs d :
-  dg (erefs st) v d [] (erefs st) -> (forall a ty fs, v <> VStruct a ty fs) -> cls_ok F (ecls st) ->
+  dg (erefs st) v d [] (erefs st) -> (forall a ty fs, v <> VStruct a ty fs) -> cls_ok F (ecls st) -> (1 <= length bs)%nat ->
   (forall R dst rest, rf_step te tm R t dst (bs ++ rest) = Ok (d, rest, dst)) ->
+  (forall f dst rest, elem_step te (readers_at te tm (S f)) t dst (bs ++ rest) = Ok (d, rest, dst)) ->
   rt_post t v st (emit st bs).
 Proof.
-  intros D NS C P. split; [exact C|]. split; [reflexivity|]. split; [split; cbn; lia|].
-  exists bs, d, []. split; [apply ebytes_emit|]. split; [exact D|].
-  intros _ dst rest I. exists dst. split; [exact I|]. split; [rewrite app_nil_r; reflexivity|]. split; [reflexivity|].
+  intros D NS C LB P PE. split; [exact C|]. split; [reflexivity|]. split; [split; cbn; lia|].
+  exists bs, d, []. split; [apply ebytes_emit|]. split; [exact LB|]. split; [exact D|].
+  intros _ dst rest I. exists dst. split; [exact I|]. split; [rewrite app_nil_r; reflexivity|].
   intros f Hf. pose proof (need_d_pos v). destruct f as [|f]; [lia|]. split; [rewrite rf_S; apply P|].
-  intros a ty fs E. exfalso. eapply NS. exact E.
+  split; [intros a ty fs E; exfalso; eapply NS; exact E|]. intros _. apply PE.
+Qed.
+Lemma elem_of_rd R t dst bs d0 d rest dst' : R_rd R dst bs = Ok (d0, rest, dst') -> set_value te (dheap dst') t d0 = Ok d -> t <> TIface ->
+  elem_step te R t dst bs = Ok (d, rest, dst').
+Proof. intros H SV NI. unfold elem_step. rewrite H. cbn [bind]. destruct t; try (rewrite SV; reflexivity). contradiction. Qed.
+
+(* ---- what ReadData makes of each leaf rendering ---- *)
+Lemma gdoubleTag_eq t : gdoubleTag t = ((t =? 89) || (t =? 95) || (t =? 91) || (t =? 92) || (t =? 93) || (t =? 94) || (t =? 68))%bool.
+Proof. unfold gdoubleTag. destruct ((t =? 89) || (t =? 95) || (t =? 91) || (t =? 92) || (t =? 93) || (t =? 94) || (t =? 68))%bool; reflexivity. Qed.
+Lemma rdv_int R st v rest : in_i32 v -> rd_step tm R st (gencodeInt v ++ rest) = Ok (DInt KInt32 v, rest, st).
+Proof.
+  intros H. destruct (int_first_tag v H) as (t & r0 & E & T). pose proof (int_roundtrip v rest H) as RT. unfold decode_int in RT.
+  rewrite E in *. cbn [app read_tag bind] in *. unfold rd_step.
+  assert (X : (t =? g_endFlag) = false /\ (t =? g_nilTag) = false /\ (t =? g_boolTrueTag) = false /\ (t =? g_boolFalseTag) = false)
+    by (unfold gintTag in T; unfold g_endFlag, g_nilTag, g_boolTrueTag, g_boolFalseTag; lia).
+  destruct X as (X1 & X2 & X3 & X4). rewrite X1, X2, X3, X4, T, RT. reflexivity.
+Qed.
+Lemma rdv_long R st v rest : in_i64 v -> rd_step tm R st (gencodeLong v ++ rest) = Ok (DInt KInt64 v, rest, st).
+Proof.
+  intros H. destruct (long_first_tag v H) as (t & r0 & E & T0 & T). pose proof (long_roundtrip v rest H) as RT. unfold decode_long in RT.
+  rewrite E in *. cbn [app read_tag bind] in *. unfold rd_step.
+  assert (X : (t =? g_endFlag) = false /\ (t =? g_nilTag) = false /\ (t =? g_boolTrueTag) = false /\ (t =? g_boolFalseTag) = false)
+    by (unfold glongTag in T; unfold g_endFlag, g_nilTag, g_boolTrueTag, g_boolFalseTag; lia).
+  destruct X as (X1 & X2 & X3 & X4). rewrite X1, X2, X3, X4, T0, T, RT. reflexivity.
+Qed.
+Lemma rdv_str R st rs rest : Forall valid_rune rs -> rd_step tm R st (encode_string rs ++ rest) = Ok (DStr rs, rest, st).
+Proof.
+  intros V. destruct (string_denotes rs [] V) as (t & tl & E & T & _). pose proof (string_roundtrip rs rest V) as RT. unfold decode_string in RT.
+  rewrite E in *. cbn [app read_tag bind] in *. unfold rd_step. unfold is_string_tag, rng in T.
+  replace (t =? g_endFlag) with false by (unfold g_endFlag; lia). replace (t =? g_nilTag) with false by (unfold g_nilTag; lia).
+  replace (t =? g_boolTrueTag) with false by (unfold g_boolTrueTag; lia). replace (t =? g_boolFalseTag) with false by (unfold g_boolFalseTag; lia).
+  replace (gintTag t) with false by (unfold gintTag; lia). replace (glongTag t) with false by (unfold glongTag; lia).
+  replace (gdoubleTag t) with false by (rewrite gdoubleTag_eq; lia).
+  replace (gstringTag t) with true by (unfold gstringTag, gstringShortTag, gstringMiddleTag, gstringChunkTag; lia).
+  rewrite RT. reflexivity.
+Qed.
+Lemma rdv_double R st b bs d rest : in_f64 b -> gencodeDouble b = Ok bs -> decode_double bs = Ok (d, []) ->
+  rd_step tm R st (bs ++ rest) = Ok (DF64 d, rest, st).
+Proof.
+  intros Hb E D. destruct (double_denotes b bs [] Hb E) as (t & tl & d0 & B & T0 & T1 & T & _).
+  pose proof (decode_double_ext bs d D rest) as RT. unfold decode_double in RT. rewrite B in *. cbn [app read_tag bind] in *.
+  unfold rd_step. unfold is_double_tag, rng in T. unfold is_int_tag, rng in T0. unfold is_long_tag, rng in T1.
+  replace (t =? g_endFlag) with false by (unfold g_endFlag; lia). replace (t =? g_nilTag) with false by (unfold g_nilTag; lia).
+  replace (t =? g_boolTrueTag) with false by (unfold g_boolTrueTag; lia). replace (t =? g_boolFalseTag) with false by (unfold g_boolFalseTag; lia).
+  replace (gintTag t) with false by (unfold gintTag; lia). replace (glongTag t) with false by (unfold glongTag; lia).
+  replace (gdoubleTag t) with true by (rewrite gdoubleTag_eq; lia).
+  rewrite RT. reflexivity.
+Qed.
+Lemma rdv_binary R st bs rest : rd_step tm R st (encode_binary bs ++ rest) = Ok (DBytes bs, rest, st).
+Proof.
+  destruct (binary_denotes bs []) as (t & tl & E & T & _). pose proof (binary_roundtrip bs rest) as RT. unfold decode_binary in RT.
+  rewrite E in *. cbn [app read_tag bind] in *. unfold rd_step. unfold is_binary_tag, rng in T.
+  replace (t =? g_endFlag) with false by (unfold g_endFlag; lia). replace (t =? g_nilTag) with false by (unfold g_nilTag; lia).
+  replace (t =? g_boolTrueTag) with false by (unfold g_boolTrueTag; lia). replace (t =? g_boolFalseTag) with false by (unfold g_boolFalseTag; lia).
+  replace (gintTag t) with false by (unfold gintTag; lia). replace (glongTag t) with false by (unfold glongTag; lia).
+  replace (gdoubleTag t) with false by (rewrite gdoubleTag_eq; lia).
+  replace (gstringTag t) with false by (unfold gstringTag, gstringShortTag, gstringMiddleTag, gstringChunkTag; lia).
+  replace (gdateTag t) with false by (unfold gdateTag; lia).
+  replace (gbinaryTag t) with true by (unfold gbinaryTag, gbinaryShortTag, gbinaryMiddleTag, gbinaryChunkTag; lia).
+  rewrite RT. reflexivity.
+Qed.
+Lemma rdv_date R st t r : t = 74 \/ t = 75 ->
+  rd_step tm R st (t :: r) = (do (x, r') <- decode_date_tag t r ;; Ok (DTime (fst x) (snd x), r', st)).
+Proof. intros [->| ->]; reflexivity. Qed.
+
+(* SetValue of what ReadData returned for an integer, into a destination of the original kind *)
+Ltac Zify.zify_post_hook ::= Z.div_mod_to_equations.
+Lemma sv_int heap k z : in_kind k z -> (k = KInt -> in_i32 z) ->
+  set_value te heap (TInt k) (if kind_wire_int k then DInt KInt32 (swrap 32 z) else DInt KInt64 (swrap 64 z)) = Ok (DInt k z).
+Proof.
+  unfold in_kind. intros H HI.
+  destruct k; cbn [kind_wire_int set_value ikind_eqb is_signed set_kind kind_lo kind_hi] in *; try specialize (HI eq_refl);
+    rewrite ?swrap8_def, ?swrap16_def, ?swrap32_def, ?swrap64_def, ?wrap8_mod, ?wrap16_mod, ?wrap32_mod, ?wrap64_mod;
+    unfold in_i32 in *; do 2 f_equal; lia.
 Qed.
 
 (* ---- a reference to an object registered earlier (also one still under construction) ---- *)
@@ -214,18 +325,21 @@ Lemma rt_ref v st i a :
 Proof.
   intros RF D C. split; [exact C|]. split; [reflexivity|]. split; [split; cbn; lia|].
   exists (81 :: gencodeInt (swrap 32 i)), (DPtr (Z.to_nat i) (ty_of a)), [].
-  split; [unfold write_ref; rewrite !ebytes_emit, <- app_assoc; reflexivity|]. split; [exact D|].
-  intros Sm dst rest I. exists dst. split; [exact I|]. split; [rewrite app_nil_r; reflexivity|]. split; [reflexivity|].
+  split; [unfold write_ref; rewrite !ebytes_emit, <- app_assoc; reflexivity|]. split; [cbn; lia|]. split; [exact D|].
+  intros Sm dst rest I. exists dst. split; [exact I|]. split; [rewrite app_nil_r; reflexivity|].
   destruct (ref_find_nth _ _ _ _ _ RF) as [B N]. replace (i - 0) with i in N by lia.
-  destruct (Inv_nth _ _ _ _ _ I N) as [o HN]. pose proof (Inv_len _ _ I) as IL.
+  destruct (Inv_nth _ _ _ _ I N) as [o HN]. pose proof (Inv_len _ _ I) as IL.
   destruct Sm as [Sm1 _]. cbn [erefs write_ref emit] in Sm1.
   assert (RR : read_ref dst (gencodeInt (swrap 32 i) ++ rest) = Ok (DPtr (Z.to_nat i) (ty_of a), rest, dst)).
   { unfold read_ref. rewrite int_roundtrip by apply swrap32_range. cbn [bind]. rewrite swrap32_id by (unfold in_i32; lia).
     unfold Decoder.nth_z. destruct (Z.ltb_spec i 0); [lia|]. destruct (Z.leb_spec (Z.of_nat (length (dheap dst))) i); [lia|].
     cbn [orb]. rewrite HN. reflexivity. }
-  intros f Hf. pose proof (need_d_pos v). destruct f as [|f]; [lia|]. split.
-  - rewrite rf_S. unfold rf_step. cbn [app]. rewrite rs_ref, RR. cbn [bind set_value]. rewrite name_eqb_refl'. reflexivity.
+  assert (SV : set_value te (dheap dst) (TPtr (TStruct (ty_of a))) (DPtr (Z.to_nat i) (ty_of a)) = Ok (DPtr (Z.to_nat i) (ty_of a)))
+    by (cbn [set_value]; rewrite name_eqb_refl'; reflexivity).
+  intros f Hf. pose proof (need_d_pos v). destruct f as [|f]; [lia|]. split; [|split].
+  - rewrite rf_S. unfold rf_step. cbn [app]. rewrite rs_ref, RR. cbn [bind]. rewrite SV. reflexivity.
   - intros a0 ty fs E. rewrite rd_S. cbn [app]. rewrite rd_ref. exact RR.
+  - intros _. eapply elem_of_rd; [rewrite rd_S; cbn [app]; rewrite rd_ref; exact RR|exact SV|discriminate].
 Qed.
 
 (* ---- the fields of an object ---- *)
@@ -236,7 +350,7 @@ Lemma fields_rt : forall fs gfs gall,
   cls_ok F (ecls st') /\ enm st' = enm st /\ grows st st' /\
   exists bs ds cells, ebytes st' = ebytes st ++ bs /\ length ds = length fs /\ dgs (erefs st) (map snd fs) ds cells (erefs st') /\
     (small st' -> forall dst rest, Inv st dst ->
-       exists dst', Inv st' dst' /\ dheap dst' = dheap dst ++ cells /\ dtypes dst' = dtypes dst /\
+       exists dst', Inv st' dst' /\ dheap dst' = dheap dst ++ cells /\
        forall f acc, (need_ditems (map snd fs) <= f)%nat ->
          R_rfs (readers_at te tm f) gall (map lower_name (map fst fs)) acc dst (bs ++ rest) =
          Ok (assoc_all acc (combine (map fst fs) ds), rest, dst')).
@@ -244,12 +358,12 @@ Proof.
   induction fs as [|[n x] r IH]; intros gfs gall HF H2 HN FF st st' En C W.
   - cbn in W. inversion W; subst st'. split; [exact C|]. split; [reflexivity|]. split; [apply grows_refl|].
     exists [], [], []. split; [rewrite app_nil_r; reflexivity|]. split; [reflexivity|]. split; [constructor|].
-    intros _ dst rest I. exists dst. split; [exact I|]. split; [rewrite app_nil_r; reflexivity|]. split; [reflexivity|].
+    intros _ dst rest I. exists dst. split; [exact I|]. split; [rewrite app_nil_r; reflexivity|].
     intros f acc Hf. cbn [need_ditems map] in Hf. destruct f as [|f]; [lia|]. rewrite rfs_S. reflexivity.
   - inversion HF as [|? ? Hx Hr]; subst. inversion H2 as [|? [gn gt] ? gr Sx Sr]; subst. cbn [fst snd map] in *.
     inversion HN as [[HN1 HN2]]. subst gn.
     cbn [write_items] in W. destruct (write_data x st) as [s1| | |] eqn:E1; try discriminate.
-    destruct (Hx gt st s1 En Sx C E1) as (C1 & N1 & G1 & b1 & d1 & c1 & B1 & D1 & P1).
+    destruct (Hx gt st s1 En Sx C E1) as (C1 & N1 & G1 & b1 & d1 & c1 & B1 & LB1 & D1 & P1).
     assert (En1 : enm s1 = nm) by (rewrite N1; exact En).
     assert (FF' : forall n0 t0, In (n0, t0) gr -> find_field gall (lower_name n0) = Some (n0, t0)) by (intros n0 t0 I0; apply FF; right; exact I0).
     destruct (IH gr gall Hr Sr HN2 FF' s1 st' En1 C1 W) as (C2 & N2 & G2 & b2 & ds & c2 & B2 & L2 & D2 & P2).
@@ -257,9 +371,9 @@ Proof.
     exists (b1 ++ b2), (d1 :: ds), (c1 ++ c2). split; [rewrite B2, B1, <- app_assoc; reflexivity|].
     split; [cbn [length]; rewrite L2; reflexivity|]. split; [econstructor; eassumption|].
     intros Sm dst rest I.
-    destruct (P1 (small_back _ _ G2 Sm) dst (b2 ++ rest) I) as (dst1 & I1 & H1 & T1 & V1).
-    destruct (P2 Sm dst1 rest I1) as (dst2 & I2 & H2' & T2 & V2).
-    exists dst2. split; [exact I2|]. split; [rewrite H2', H1, <- app_assoc; reflexivity|]. split; [rewrite T2; exact T1|].
+    destruct (P1 (small_back _ _ G2 Sm) dst (b2 ++ rest) I) as (dst1 & I1 & H1 & V1).
+    destruct (P2 Sm dst1 rest I1) as (dst2 & I2 & H2' & V2).
+    exists dst2. split; [exact I2|]. split; [rewrite H2', H1, <- app_assoc; reflexivity|].
     intros f acc Hf. cbn [need_ditems] in Hf. destruct f as [|f]; [lia|]. rewrite rfs_S. unfold rfs_step.
     rewrite (FF n gt (or_introl eq_refl)). rewrite <- app_assoc. destruct (V1 f ltac:(lia)) as [V1a _]. rewrite V1a. cbn [bind].
     rewrite V2 by lia. reflexivity.
@@ -329,24 +443,27 @@ Proof.
   assert (HB : exists hdr, ebytes st4 = ebytes st ++ hdr).
   { destruct (cls_index (ecls st1) c 0); destruct PC as [_ PC2]; eexists; exact PC2. }
   destruct HB as [hdr HB].
+  assert (LH : (1 <= length hdr)%nat).
+  { destruct (cls_index (ecls st1) c 0); destruct PC as [_ PC2]; rewrite PC2 in HB; apply app_inv_head in HB; subst hdr;
+      [unfold tagbytes; destruct (_ <=? 15); cbn; lia|cbn; lia]. }
   exists (hdr ++ b2), (DPtr (length (erefs st)) ty), (RObj ty (Some (combine (map fst fs) ds)) :: c2).
-  split; [rewrite B2, HB, <- app_assoc; reflexivity|].
+  split; [rewrite B2, HB, <- app_assoc; reflexivity|]. split; [rewrite app_length; lia|].
   split; [apply dg_new; [exact RF|rewrite P1 in D2; exact D2]|].
   intros Sm dst rest I. pose proof (Inv_len _ _ I) as IL. destruct I as [I1 I2].
   pose proof (small_back _ _ G2 Sm) as Sm4.
   (* the decoder state after the class definition (if any), with the cell of the new object *)
   set (dstC := {| dtypes := dtypes dst; dcls := ecls st4; dheap := dheap dst |}).
   assert (IP : Inv st4 (heap_push dstC (RObj ty None))).
-  { split; [reflexivity|]. cbn [heap_push dheap dstC]. rewrite map_app, I2, P1. cbn [erefs st1]. rewrite map_app. cbn. rewrite TA. reflexivity. }
-  destruct (PF Sm (heap_push dstC (RObj ty None)) rest IP) as (dst2 & J2 & H2h & T2 & V2).
-  cbn [heap_push dheap dtypes dstC] in H2h, T2.
+  { split; [reflexivity|]. cbn [heap_push dheap dstC]. rewrite map_app, I2, P1. cbn [erefs st1]. rewrite map_app. cbn. unfold ref_tag. cbn. rewrite TA. reflexivity. }
+  destruct (PF Sm (heap_push dstC (RObj ty None)) rest IP) as (dst2 & J2 & H2h & V2).
+  cbn [heap_push dheap dtypes dstC] in H2h.
   set (fields' := combine (map fst fs) ds).
   set (dst' := heap_set dst2 (length (dheap dst)) (RObj ty (Some fields'))).
   assert (HH : dheap dst' = dheap dst ++ RObj ty (Some fields') :: c2).
   { unfold dst', heap_set. cbn [dheap]. rewrite H2h, <- app_assoc. cbn [app]. apply list_set_app. }
   exists dst'. split.
   { destruct J2 as [J21 J22]. split; [exact J21|]. rewrite HH. rewrite <- J22, H2h, <- app_assoc. rewrite !map_app. reflexivity. }
-  split; [exact HH|]. split; [exact T2|].
+  split; [exact HH|].
   (* reading the instance once the class table holds the class *)
   assert (RO : forall g dstX, (need_ditems (map snd fs) <= g)%nat -> dstX = dstC ->
     R_ro (readers_at te tm (S g)) ty (F c) dstX (b2 ++ rest) = Ok (DPtr (length (dheap dst)) ty, rest, dst')).
@@ -372,9 +489,13 @@ Proof.
     destruct Sm4 as [_ Sm42]. rewrite PC1 in Sm42. cbn [ecls st1] in Sm42.
     destruct f as [|[|g]]; try lia.
     destruct (obj_tag_dec (readers_at te tm (S g)) dst i (b2 ++ rest) ltac:(lia)) as [OT1 OT2].
-    rewrite <- app_assoc. split.
+    rewrite <- app_assoc.
+    assert (RD : R_rd (readers_at te tm (S (S g))) dst (tagbytes i ++ b2 ++ rest) = Ok (DPtr (length (erefs st)) ty, rest, dst'))
+      by (rewrite rd_S, OT2, OA by lia; reflexivity).
+    split; [|split].
     + rewrite rf_S. unfold rf_step. rewrite OT1, OA by lia. cbn [bind]. rewrite SV. reflexivity.
-    + intros a0 ty0 fs1 _. rewrite rd_S, OT2, OA by lia. reflexivity.
+    + intros a0 ty0 fs1 _. exact RD.
+    + intros _. eapply elem_of_rd; [exact RD|exact SV|discriminate].
   - (* a new class: its definition comes first *)
     cbn [ecls st1] in PC1, PC2.
     set (idx := Z.of_nat (length (ecls st))) in *.
@@ -393,38 +514,18 @@ Proof.
     destruct Sm4 as [_ Sm42]. rewrite PC1, app_length in Sm42. cbn in Sm42.
     destruct f as [|[|[|g]]]; try lia.
     destruct (obj_tag_dec (readers_at te tm (S g)) dstC idx (b2 ++ rest) ltac:(unfold idx; lia)) as [_ OT2].
-    rewrite <- !app_assoc. cbn [app]. split.
+    rewrite <- !app_assoc. cbn [app].
+    assert (RD : R_rd (readers_at te tm (S (S (S g)))) dst
+                   (67 :: encode_string c ++ gencodeInt (swrap 32 (Z.of_nat (length (map fst fs)))) ++ concat (map encode_string (F c)) ++ tagbytes idx ++ b2 ++ rest)
+                 = Ok (DPtr (length (erefs st)) ty, rest, dst'))
+      by (rewrite rd_S, rd_classdef, RC; cbn [bind snd]; rewrite rd_S, OT2, OA by lia; reflexivity).
+    split; [|split].
     + rewrite rf_S. unfold rf_step. rewrite rs_classdef, RC. cbn [bind snd]. rewrite rd_S, OT2, OA by lia. cbn [bind]. rewrite SV. reflexivity.
-    + intros a0 ty0 fs1 _. rewrite rd_S, rd_classdef, RC. cbn [bind snd]. rewrite rd_S, OT2, OA by lia. reflexivity.
+    + intros a0 ty0 fs1 _. exact RD.
+    + intros _. eapply elem_of_rd; [exact RD|exact SV|discriminate].
 Qed.
 
 (* ---- further leaves: doubles, byte slices, timestamps ---- *)
-Lemma take_n_app_exact : forall n r x rest, take_n n r = Some (x, []) -> take_n n (r ++ rest) = Some (x, rest).
-Proof.
-  induction n as [|n IH]; intros r x rest H; cbn [take_n] in *.
-  - inversion H; subst. reflexivity.
-  - destruct r as [|b r0]; [discriminate|]. cbn [app]. destruct (take_n n r0) as [[x0 r1]|] eqn:E; [|discriminate].
-    inversion H; subst. rewrite (IH _ _ rest E). reflexivity.
-Qed.
-Lemma read_full_app_exact n r x rest : read_full n r = Ok (x, []) -> read_full n (r ++ rest) = Ok (x, rest).
-Proof.
-  unfold read_full. destruct n as [|n]; [intros H; inversion H; subst; reflexivity|].
-  destruct r as [|b r0]; [discriminate|]. cbn [app]. destruct (take_n (S n) (b :: r0)) as [[x0 r1]|] eqn:E; [|discriminate].
-  intros H. inversion H; subst. change (b :: r0 ++ rest) with ((b :: r0) ++ rest). rewrite (take_n_app_exact _ _ _ rest E). reflexivity.
-Qed.
-Lemma decode_double_ext bs d : decode_double bs = Ok (d, []) -> forall rest, decode_double (bs ++ rest) = Ok (d, rest).
-Proof.
-  unfold decode_double. destruct bs as [|t r]; [discriminate|]. cbn [read_tag bind app]. unfold decode_double_tag. intros H rest.
-  destruct (t =? g_doubleZeroTag); [inversion H; subst; reflexivity|]. destruct (t =? g_doubleOneTag); [inversion H; subst; reflexivity|].
-  destruct (t =? g_doubleOneByteTag).
-  { destruct r as [|b r0]; [discriminate|]. cbn [read_tag bind app] in *. inversion H; subst. reflexivity. }
-  destruct (t =? g_doubleTwoByteTag).
-  { destruct (read_full 2 r) as [[bf r']| | |] eqn:E; try discriminate. cbn [bind] in H. inversion H; subst. rewrite (read_full_app_exact _ _ _ rest E). reflexivity. }
-  destruct (t =? g_doubleFourByteTag).
-  { destruct (read_full 4 r) as [[bf r']| | |] eqn:E; try discriminate. cbn [bind] in H. inversion H; subst. rewrite (read_full_app_exact _ _ _ rest E). reflexivity. }
-  destruct (t =? g_doubleLongStartTag); [|discriminate].
-  destruct (read_full 8 r) as [[bf r']| | |] eqn:E; try discriminate. cbn [bind] in H. inversion H; subst. rewrite (read_full_app_exact _ _ _ rest E). reflexivity.
-Qed.
 Lemma rl_S f fl dst bs : R_rl (readers_at te tm (S f)) fl dst bs = rl_step tm (readers_at te tm f) fl dst bs.
 Proof. reflexivity. Qed.
 Lemma binary_head bs : exists t tl, encode_binary bs = t :: tl /\ gbinaryTag t = true /\ forall rest, decode_binary_tag t (tl ++ rest) = Ok (bs, rest).
@@ -435,12 +536,13 @@ Proof.
 Qed.
 Lemma rt_bytes bs st : cls_ok F (ecls st) -> rt_post TBytes (VBytes bs) st (emit st (encode_binary bs)).
 Proof.
-  intros C. split; [exact C|]. split; [reflexivity|]. split; [split; cbn; lia|].
-  exists (encode_binary bs), (DBytes bs), []. split; [apply ebytes_emit|]. split; [constructor|].
-  intros _ dst rest I. exists dst. split; [exact I|]. split; [rewrite app_nil_r; reflexivity|]. split; [reflexivity|].
-  destruct (binary_head bs) as (t & tl & E & T & D).
-  intros f Hf. cbn [need_d] in Hf. destruct f as [|[|f]]; try lia. split; [|intros a ty fs X; discriminate].
-  rewrite rf_S. unfold rf_step. rewrite rl_S. unfold rl_step. rewrite E. cbn [app bind]. rewrite T, D. cbn [bind set_slice]. reflexivity.
+  intros C. destruct (binary_head bs) as (t & tl & E & T & D).
+  split; [exact C|]. split; [reflexivity|]. split; [split; cbn; lia|].
+  exists (encode_binary bs), (DBytes bs), []. split; [apply ebytes_emit|]. split; [rewrite E; cbn; lia|]. split; [constructor|].
+  intros _ dst rest I. exists dst. split; [exact I|]. split; [rewrite app_nil_r; reflexivity|].
+  intros f Hf. cbn [need_d] in Hf. destruct f as [|[|f]]; try lia. split; [|split; [intros a ty fs X; discriminate|]].
+  - rewrite rf_S. unfold rf_step. rewrite rl_S. unfold rl_step. rewrite E. cbn [app bind]. rewrite T, D. cbn [bind set_slice]. reflexivity.
+  - intros _. eapply elem_of_rd; [rewrite rd_S; apply rdv_binary|reflexivity|discriminate].
 Qed.
 Lemma date_head s n : time_is_zero s n = false -> exists t tl, gencodeDate s n = t :: tl /\ (t = 74 \/ t = 75).
 Proof.
@@ -450,40 +552,219 @@ Lemma rs_date R st t r : t = 74 \/ t = 75 ->
   read_struct tm R st (t :: r) = (do (x, r') <- decode_date_tag t r ;; Ok (DTime (fst x) (snd x), r', st)).
 Proof. intros [->| ->]; reflexivity. Qed.
 
+(* ---- lists ---- *)
+Lemma rn_S f e n dst bs : R_rn (readers_at te tm (S f)) e n dst bs = rn_step te (readers_at te tm f) e n dst bs.
+Proof. reflexivity. Qed.
+Lemma gtype_eqb_refl t : gtype_eqb t t = true.
+Proof.
+  induction t; cbn [gtype_eqb]; try reflexivity; try assumption.
+  - destruct k; reflexivity.
+  - apply name_eqb_refl'.
+  - rewrite IHt1, IHt2. reflexivity.
+Qed.
+Lemma elems_rt e : e <> TIface -> forall l, Forall rt_ok l -> Forall (sgv e) l ->
+  forall st st', enm st = nm -> cls_ok F (ecls st) -> write_items l st = Ok st' ->
+  cls_ok F (ecls st') /\ enm st' = enm st /\ grows st st' /\
+  exists bs ds cells, ebytes st' = ebytes st ++ bs /\ (length l <= length bs)%nat /\ dgs (erefs st) l ds cells (erefs st') /\
+    (small st' -> forall dst rest, Inv st dst ->
+       exists dst', Inv st' dst' /\ dheap dst' = dheap dst ++ cells /\
+       forall f, (need_ditems l <= f)%nat -> R_rn (readers_at te tm f) e (length l) dst (bs ++ rest) = Ok (ds, rest, dst')).
+Proof.
+  intros NI. induction l as [|x r IH]; intros HF HS st st' En C W.
+  - cbn in W. inversion W; subst st'. split; [exact C|]. split; [reflexivity|]. split; [apply grows_refl|].
+    exists [], [], []. split; [rewrite app_nil_r; reflexivity|]. split; [cbn; lia|]. split; [constructor|].
+    intros _ dst rest I. exists dst. split; [exact I|]. split; [rewrite app_nil_r; reflexivity|].
+    intros f Hf. cbn [need_ditems] in Hf. destruct f as [|f]; [lia|]. reflexivity.
+  - inversion HF as [|? ? Hx Hr]; subst. inversion HS as [|? ? Sx Sr]; subst.
+    cbn [write_items] in W. destruct (write_data x st) as [s1| | |] eqn:E1; try discriminate.
+    destruct (Hx e st s1 En Sx C E1) as (C1 & N1 & G1 & b1 & d1 & c1 & B1 & LB1 & D1 & P1).
+    assert (En1 : enm s1 = nm) by (rewrite N1; exact En).
+    destruct (IH Hr Sr s1 st' En1 C1 W) as (C2 & N2 & G2 & b2 & ds & c2 & B2 & L2 & D2 & P2).
+    split; [exact C2|]. split; [rewrite N2; exact N1|]. split; [eapply grows_trans; eassumption|].
+    exists (b1 ++ b2), (d1 :: ds), (c1 ++ c2). split; [rewrite B2, B1, <- app_assoc; reflexivity|].
+    split; [cbn [length]; rewrite app_length; lia|]. split; [econstructor; eassumption|].
+    intros Sm dst rest I.
+    destruct (P1 (small_back _ _ G2 Sm) dst (b2 ++ rest) I) as (dst1 & I1 & H1 & V1).
+    destruct (P2 Sm dst1 rest I1) as (dst2 & I2 & H2' & V2).
+    exists dst2. split; [exact I2|]. split; [rewrite H2', H1, <- app_assoc; reflexivity|].
+    intros f Hf. cbn [need_ditems] in Hf. destruct f as [|f]; [lia|]. cbn [length]. rewrite rn_S. cbn [rn_step].
+    rewrite <- app_assoc. destruct (V1 f ltac:(lia)) as (_ & _ & V1c). rewrite (V1c NI). cbn [bind]. rewrite V2 by lia. reflexivity.
+Qed.
+
+Definition list_hdr (ltn : name) (n : Z) : bytes :=
+  if n <=? 7 then (112 + n) :: encode_string ltn else 86 :: encode_string ltn ++ gencodeInt (swrap 32 n).
+Lemma list_header_bytes st1 ty n ltn : 0 <= n -> nm_lookup (enm st1) ty = Some ltn ->
+  name_eqb interface_type_name (array_root_elem_name ty) = false ->
+  let st2 := list_header st1 ty n in
+  erefs st2 = erefs st1 /\ enm st2 = enm st1 /\ ecls st2 = ecls st1 /\ ebytes st2 = ebytes st1 ++ list_hdr ltn n.
+Proof.
+  intros Hn NL NI. cbv zeta. unfold list_header, list_hdr. rewrite NL, NI.
+  unfold g_listFixedTypedLenMax, g_listFixedTypedLenTagMin, g_listFixedTypedStartTag.
+  destruct (n <=? 7) eqn:E; (split; [reflexivity|]); (split; [reflexivity|]); (split; [reflexivity|]).
+  - rewrite (wrap8_id n) by lia. rewrite wrap8_id by lia. rewrite !ebytes_emit, <- app_assoc. reflexivity.
+  - rewrite !ebytes_emit, <- !app_assoc. reflexivity.
+Qed.
+Lemma read_type_str dst ltn tail : Forall valid_rune ltn ->
+  read_type dst (encode_string ltn ++ tail) = Ok (ltn, tail, {| dtypes := dtypes dst ++ [ltn]; dcls := dcls dst; dheap := dheap dst |}).
+Proof.
+  intros V. destruct (string_denotes ltn [] V) as (t & tl & E & T & _). pose proof (string_roundtrip ltn tail V) as RT. unfold decode_string in RT.
+  rewrite E in *. cbn [app read_tag bind] in *. unfold read_type. unfold is_string_tag, rng in T.
+  replace (gstringTag t) with true by (unfold gstringTag, gstringShortTag, gstringMiddleTag, gstringChunkTag; lia).
+  rewrite RT. reflexivity.
+Qed.
+(* the three ways a typed fixed-length list is reached: as a list-typed field, as a value, as a list element *)
+Lemma typed_list_dec R dst ltn e n tail : Forall valid_rune ltn -> tm_lookup tm ltn = Some (TSlice e) ->
+  0 <= n <= 2147483647 -> n <= Z.of_nat (length tail) ->
+  let dstT := {| dtypes := dtypes dst ++ [ltn]; dcls := dcls dst; dheap := dheap dst |} in
+  let K := (do (z, st2) <- R_rn R e (Z.to_nat n) (heap_push dstT (RList None)) tail ;; let '(items, r3) := z in
+            Ok (DSlice e items, r3, heap_set st2 (length (dheap dst)) (RList (Some (DSlice e items))))) in
+  rl_step tm R None dst (list_hdr ltn n ++ tail) = K /\
+  rd_step tm R dst (list_hdr ltn n ++ tail) = R_rl R (Some (if n <=? 7 then 112 + n else 86)) dst (tl (list_hdr ltn n) ++ tail) /\
+  rl_step tm R (Some (if n <=? 7 then 112 + n else 86)) dst (tl (list_hdr ltn n) ++ tail) = K.
+Proof.
+  intros V TM Hn CT. cbv zeta. unfold list_hdr.
+  assert (G : (Z.of_nat (length tail) <? n) = false) by lia.
+  destruct (n <=? 7) eqn:E.
+  - assert (C8 : n = 0 \/ n = 1 \/ n = 2 \/ n = 3 \/ n = 4 \/ n = 5 \/ n = 6 \/ n = 7) by lia.
+    cbn [tl app].
+    assert (TL : typed_list_step tm R (112 + n) dst (encode_string ltn ++ tail) =
+      (do (z, st2) <- R_rn R e (Z.to_nat n) (heap_push {| dtypes := dtypes dst ++ [ltn]; dcls := dcls dst; dheap := dheap dst |} (RList None)) tail ;; let '(items, r3) := z in
+       Ok (DSlice e items, r3, heap_set st2 (length (dheap dst)) (RList (Some (DSlice e items)))))).
+    { unfold typed_list_step. rewrite read_type_str by exact V. cbn [bind].
+      destruct C8 as [->|[->|[->|[->|[->|[->|[->| ->]]]]]]]; cbn [bind];
+        repeat match goal with
+        | |- context [?a + ?b =? ?c] => let v := eval vm_compute in (a + b =? c) in change (a + b =? c) with v
+        | |- context [glistFixedTypedLenTag (?a + ?b)] => let v := eval vm_compute in (glistFixedTypedLenTag (a + b)) in change (glistFixedTypedLenTag (a + b)) with v
+        | |- context [wrap 8 (?a + ?b - ?c)] => let v := eval vm_compute in (wrap 8 (a + b - c)) in change (wrap 8 (a + b - c)) with v
+        end; cbv iota; cbn [bind]; cbn in G; rewrite G; change (_ <? 0) with false; cbv iota; rewrite TM; reflexivity. }
+    split; [|split].
+    + destruct C8 as [->|[->|[->|[->|[->|[->|[->| ->]]]]]]]; exact TL.
+    + destruct C8 as [->|[->|[->|[->|[->|[->|[->| ->]]]]]]]; reflexivity.
+    + destruct C8 as [->|[->|[->|[->|[->|[->|[->| ->]]]]]]]; exact TL.
+  - cbn [tl app].
+    assert (TL : typed_list_step tm R 86 dst (encode_string ltn ++ gencodeInt (swrap 32 n) ++ tail) =
+      (do (z, st2) <- R_rn R e (Z.to_nat n) (heap_push {| dtypes := dtypes dst ++ [ltn]; dcls := dcls dst; dheap := dheap dst |} (RList None)) tail ;; let '(items, r3) := z in
+       Ok (DSlice e items, r3, heap_set st2 (length (dheap dst)) (RList (Some (DSlice e items)))))).
+    { unfold typed_list_step. rewrite read_type_str by exact V. cbn [bind].
+      change (86 =? g_listVariableTypedTag) with false. change (glistFixedTypedLenTag 86) with false. change (86 =? g_listFixedTypedStartTag) with true. cbv iota.
+      rewrite int_roundtrip by apply swrap32_range. cbn [bind]. rewrite swrap32_id by (unfold in_i32; lia).
+      replace (n <? 0) with false by lia. rewrite G, TM. reflexivity. }
+    rewrite <- !app_assoc. split; [exact TL|]. split; [reflexivity|exact TL].
+Qed.
+
+Lemma rt_slice ty l e ltn st st' :
+  nm_lookup nm ty = Some ltn -> name_eqb interface_type_name (array_root_elem_name ty) = false ->
+  tm_lookup tm ltn = Some (TSlice e) -> Forall valid_rune ltn -> e <> TIface -> Z.of_nat (length l) <= 2147483647 ->
+  Forall (sgv e) l -> Forall rt_ok l -> enm st = nm -> cls_ok F (ecls st) ->
+  write_items l (list_header {| ecls := ecls st; erefs := erefs st ++ [(0, RSlice)]; enm := enm st; eout := eout st |} ty (Z.of_nat (length l))) = Ok st' ->
+  rt_post (TSlice e) (VSlice 0 ty l) st st'.
+Proof.
+  intros NL NI TM V NE LN HS HR En C W.
+  set (st1 := {| ecls := ecls st; erefs := erefs st ++ [(0, RSlice)]; enm := enm st; eout := eout st |}) in *.
+  set (n := Z.of_nat (length l)) in *.
+  assert (NL1 : nm_lookup (enm st1) ty = Some ltn) by (cbn [enm st1]; rewrite En; exact NL).
+  destruct (list_header_bytes st1 ty n ltn ltac:(unfold n; lia) NL1 NI) as (P1 & P2 & P3 & PB).
+  set (st2 := list_header st1 ty n) in *.
+  assert (En2 : enm st2 = nm) by (rewrite P2; exact En).
+  assert (C2' : cls_ok F (ecls st2)) by (rewrite P3; exact C).
+  destruct (elems_rt e NE l HR HS st2 st' En2 C2' W) as (C2 & N2 & G2 & b2 & ds & c2 & B2 & L2 & D2 & PE).
+  split; [exact C2|]. split; [rewrite N2, P2; reflexivity|].
+  split; [destruct G2 as [G21 G22]; split; [rewrite P1 in G21; cbn [erefs st1] in G21; rewrite app_length in G21; cbn in G21; lia|rewrite P3 in G22; exact G22]|].
+  exists (list_hdr ltn n ++ b2), (DSlice e ds), (RList (Some (DSlice e ds)) :: c2).
+  split; [rewrite B2, PB, <- app_assoc; reflexivity|].
+  split; [rewrite app_length; unfold list_hdr; destruct (n <=? 7); cbn [length]; lia|].
+  split; [apply dg_slice; rewrite P1 in D2; exact D2|].
+  intros Sm dst rest I. pose proof (Inv_len _ _ I) as IL. destruct I as [I1 I2].
+  set (dstT := {| dtypes := dtypes dst ++ [ltn]; dcls := dcls dst; dheap := dheap dst |}).
+  assert (IP : Inv st2 (heap_push dstT (RList None))).
+  { split; [cbn; rewrite P3; exact I1|]. cbn [heap_push dheap dstT]. rewrite map_app, I2, P1. cbn [erefs st1]. rewrite map_app. reflexivity. }
+  destruct (PE Sm (heap_push dstT (RList None)) rest IP) as (dst2 & J2 & H2h & V2).
+  cbn [heap_push dheap dstT] in H2h.
+  set (dst' := heap_set dst2 (length (dheap dst)) (RList (Some (DSlice e ds)))).
+  assert (HH : dheap dst' = dheap dst ++ RList (Some (DSlice e ds)) :: c2).
+  { unfold dst', heap_set. cbn [dheap]. rewrite H2h, <- app_assoc. cbn [app]. apply list_set_app. }
+  exists dst'. split.
+  { destruct J2 as [J21 J22]. split; [exact J21|]. rewrite HH. rewrite <- J22, H2h, <- app_assoc. rewrite !map_app. reflexivity. }
+  split; [exact HH|].
+  intros f Hf. rewrite need_d_slice in Hf. destruct f as [|[|g]]; try lia.
+  assert (CT : n <= Z.of_nat (length (b2 ++ rest))) by (rewrite app_length; unfold n; lia).
+  assert (KV : forall R, R_rn R e (Z.to_nat n) (heap_push dstT (RList None)) (b2 ++ rest) = Ok (ds, rest, dst2) ->
+     (do (z, s2) <- R_rn R e (Z.to_nat n) (heap_push dstT (RList None)) (b2 ++ rest) ;; let '(items, r3) := z in
+      Ok (DSlice e items, r3, heap_set s2 (length (dheap dst)) (RList (Some (DSlice e items))))) = Ok (DSlice e ds, rest, dst')).
+  { intros R H. rewrite H. reflexivity. }
+  assert (RN : R_rn (readers_at te tm g) e (Z.to_nat n) (heap_push dstT (RList None)) (b2 ++ rest) = Ok (ds, rest, dst2))
+    by (unfold n; rewrite Nat2Z.id; apply V2; lia).
+  destruct (typed_list_dec (readers_at te tm g) dst ltn e n (b2 ++ rest) V TM ltac:(unfold n; lia) CT) as (D1 & _ & D3).
+  destruct (typed_list_dec (readers_at te tm (S g)) dst ltn e n (b2 ++ rest) V TM ltac:(unfold n; lia) CT) as (_ & D2' & _).
+  unfold dstT in RN.
+  match type of D1 with context [R_rn _ _ _ ?d _] => match type of RN with R_rn _ _ _ ?d' _ = _ => change d with d' in D1, D3 end end.
+  rewrite RN in D1, D3. cbn [bind] in D1, D3. fold dst' in D1, D3.
+  rewrite <- app_assoc.
+  assert (RD : R_rd (readers_at te tm (S (S g))) dst (list_hdr ltn n ++ b2 ++ rest) = Ok (DSlice e ds, rest, dst')).
+  { rewrite rd_S, D2', rl_S. exact D3. }
+  split; [|split].
+  - rewrite rf_S. unfold rf_step. rewrite rl_S, D1. cbn [bind set_slice]. rewrite gtype_eqb_refl. reflexivity.
+  - intros a0 ty0 fs0 X. discriminate.
+  - intros _. eapply elem_of_rd; [exact RD|cbn [set_value]; rewrite gtype_eqb_refl; reflexivity|exact (fun X => ltac:(discriminate))].
+Qed.
+
 (* ---- the theorem ---- *)
 Theorem graph_roundtrip : forall v, rt_ok v.
 Proof.
   induction v using gval_ind'; intros t st st' En Hs C W; try (inversion Hs; fail).
   - (* nil pointer *) inversion Hs; subst. cbn [write_data] in W. inversion W; subst st'.
-    eapply rt_leaf; [constructor|intros; discriminate|exact C|]. intros R dst rest. reflexivity.
+    eapply (rt_leaf _ VNil st [78] DNil); [apply dg_nil|intros; discriminate|exact C|cbn; lia|intros; reflexivity|intros; reflexivity].
   - (* bool *) inversion Hs; subst. cbn [write_data] in W. inversion W; subst st'.
-    eapply rt_leaf; [constructor|intros; discriminate|exact C|]. intros R dst rest. apply field_bool_roundtrip.
+    eapply (rt_leaf TBool (VBool b) st _ (DBool b)); [apply dg_bool|intros; discriminate|exact C|cbn; lia|intros; apply field_bool_roundtrip|].
+    intros f dst rest. destruct b; reflexivity.
   - (* integers *) inversion Hs; subst. cbn [write_data] in W.
     destruct (enc_kind k z) as [bs| | |] eqn:E; inversion W; subst st'.
-    eapply rt_leaf; [constructor|intros; discriminate|exact C|]. intros R dst rest. apply field_int_roundtrip; assumption.
+    assert (KI : k = KInt -> in_i32 z).
+    { intros ->. cbn [enc_kind] in E. unfold between in E. destruct ((-2147483648 <=? z) && (z <=? 2147483647)) eqn:B; [|discriminate]. unfold in_i32. lia. }
+    assert (BS : bs = if kind_wire_int k then gencodeInt (swrap 32 z) else gencodeLong (swrap 64 z)).
+    { destruct k; cbn [enc_kind kind_wire_int] in *; try (destruct (between _ _ _)); inversion E; reflexivity. }
+    eapply (rt_leaf (TInt k) (VInt k z) st bs (DInt k z)); [apply dg_int|intros; discriminate|exact C| |intros; apply field_int_roundtrip; assumption|].
+    + rewrite BS. destruct (kind_wire_int k).
+      * destruct (int_first_tag _ (swrap32_range z)) as (t0 & r0 & E0 & _). rewrite E0. cbn; lia.
+      * destruct (long_first_tag _ (swrap64_range z)) as (t0 & r0 & E0 & _). rewrite E0. cbn; lia.
+    + intros f dst rest. pose proof (sv_int (dheap dst) k z ltac:(assumption) KI) as SV. rewrite BS.
+      destruct (kind_wire_int k); (eapply elem_of_rd; [rewrite rd_S; first [apply rdv_int; apply swrap32_range|apply rdv_long; apply swrap64_range]|exact SV|discriminate]).
   - (* float64 *) inversion Hs; subst. cbn [write_data] in W. unfold write_double in W.
     destruct (gencodeDouble b) as [bs| | |] eqn:E; inversion W; subst st'.
-    match goal with H : in_f64 b |- _ => destruct (double_roundtrip b [] bs H E) as (d & D & Fq) end. rewrite app_nil_r in D.
-    eapply (rt_leaf TF64 (VF64 b) st bs (DF64 d)); [apply dg_f64; exact Fq|intros; discriminate|exact C|].
-    intros R dst rest. unfold rf_step. rewrite (decode_double_ext bs d D rest). reflexivity.
+    match goal with H : in_f64 b |- _ => pose proof H as Hb; destruct (double_roundtrip b [] bs H E) as (d & D & Fq) end. rewrite app_nil_r in D.
+    destruct (double_denotes b bs [] Hb E) as (t0 & tl0 & d0 & B0 & _).
+    eapply (rt_leaf TF64 (VF64 b) st bs (DF64 d)); [apply dg_f64; exact Fq|intros; discriminate|exact C|rewrite B0; cbn; lia| |].
+    + intros R dst rest. unfold rf_step. rewrite (decode_double_ext bs d D rest). reflexivity.
+    + intros f dst rest. eapply elem_of_rd; [rewrite rd_S; eapply rdv_double; eassumption|reflexivity|discriminate].
   - (* string *) inversion Hs; subst. cbn [write_data] in W. inversion W; subst st'.
-    eapply rt_leaf; [constructor|intros; discriminate|exact C|]. intros R dst rest. apply field_string_roundtrip. assumption.
+    match goal with H : Forall valid_rune rs |- _ => pose proof H as V end.
+    destruct (string_denotes rs [] V) as (t0 & tl0 & E0 & _).
+    eapply (rt_leaf TStr (VStr rs) st _ (DStr rs)); [apply dg_str|intros; discriminate|exact C|rewrite E0; cbn; lia|intros; apply field_string_roundtrip; exact V|].
+    intros f dst rest. eapply elem_of_rd; [rewrite rd_S; apply rdv_str; exact V|reflexivity|discriminate].
   - (* bytes *) inversion Hs; subst. cbn [write_data] in W. inversion W; subst st'. apply rt_bytes. exact C.
   - (* time *) inversion Hs; subst. cbn [write_data] in W. inversion W; subst st'.
     destruct (time_is_zero s n) eqn:Z0.
     + assert (G : gencodeDate s n = [78]) by (unfold gencodeDate; rewrite Z0; reflexivity). rewrite G.
-      eapply rt_leaf; [apply dg_time0; exact Z0|intros; discriminate|exact C|]. intros R dst rest. reflexivity.
+      eapply (rt_leaf TTime (VTime s n) st [78] (DTime zero_time_sec 0)); [apply dg_time0; exact Z0|intros; discriminate|exact C|cbn; lia|intros; reflexivity|intros; reflexivity].
     + destruct (date_head s n Z0) as (t0 & tl & E & T).
-      eapply rt_leaf; [apply dg_time; exact Z0|intros; discriminate|exact C|]. intros R dst rest.
-      pose proof (date_roundtrip s n rest ltac:(assumption) ltac:(assumption) Z0) as DR. rewrite E in DR |- *. cbn [app] in DR |- *.
-      unfold decode_date in DR. cbn [read_tag bind] in DR.
-      unfold rf_step. rewrite rs_date by exact T. rewrite DR. cbn [bind fst snd set_value]. reflexivity.
+      assert (DT : forall rest, decode_date_tag t0 (tl ++ rest) = Ok ((s, n - n mod 1000000), rest)).
+      { intros rest. pose proof (date_roundtrip s n rest ltac:(assumption) ltac:(assumption) Z0) as DR. rewrite E in DR. cbn [app] in DR.
+        unfold decode_date in DR. cbn [read_tag bind] in DR. exact DR. }
+      eapply (rt_leaf TTime (VTime s n) st _ (DTime s (n - n mod 1000000))); [apply dg_time; exact Z0|intros; discriminate|exact C|rewrite E; cbn; lia| |].
+      * intros R dst rest. rewrite E. cbn [app]. unfold rf_step. rewrite rs_date by exact T. rewrite DT. cbn [bind fst snd set_value]. reflexivity.
+      * intros f dst rest. rewrite E. cbn [app]. eapply elem_of_rd; [rewrite rd_S, rdv_date by exact T; rewrite DT; cbn [bind fst snd]; reflexivity|reflexivity|discriminate].
   - (* struct *)
-    inversion Hs as [| | | | | | | |? ? ? c gfs NZ TA NL TM TE HN FFD Vc HF VF LN H2]; subst.
+    inversion Hs as [| | | | | | | | |? ? ? c gfs NZ TA NL TM TE HN FFD Vc HF VF LN H2]; subst.
     rewrite write_data_struct in W. unfold check_ref in W.
     destruct (ref_find (erefs st) a RStruct 0) as [i|] eqn:RF.
     + inversion W; subst st'. apply rt_ref; [exact RF|apply dg_hit; exact RF|exact C].
     + eapply rt_struct_new; try eassumption. reflexivity.
+  - (* list *)
+    inversion Hs as [| | | | | |? ? ? ltn NL NI TM V NE LN HS| | |]; subst.
+    rewrite write_data_slice in W. replace (if (length l =? 0)%nat then 0 else 0) with 0 in W by (destruct (length l =? 0)%nat; reflexivity).
+    destruct (check_ref_zero st RSlice) as [st1 CR]. unfold check_ref in CR. rewrite ref_find_zero in CR. inversion CR; subst st1.
+    unfold check_ref in W. rewrite ref_find_zero in W.
+    eapply rt_slice; try eassumption.
   - (* already written *)
     inversion Hs; subst. cbn [write_data] in W.
     destruct (ref_find (erefs st) a RStruct 0) as [i|] eqn:RF; [|discriminate]. inversion W; subst st'.
@@ -500,11 +781,11 @@ Theorem graph_message_roundtrip a ty fs st' :
 Proof.
   intros Hs W Sm.
   destruct (graph_roundtrip _ _ (estate0 nm) st' eq_refl Hs (fun c fs0 (I : In (c, fs0) []) => match I with end) W)
-    as (_ & _ & _ & bs & d & cells & B & D & P).
-  inversion D as [| | | | | | | | |? ? ? ? ? RF|? ? ? ? ds cells' ? RF DS]; subst; [discriminate|].
+    as (_ & _ & _ & bs & d & cells & B & _ & D & P).
+  inversion D as [| | | | | | | | |? ? ? ? ? RF|? ? ? ? ds cells' ? RF DS|]; subst; [discriminate|].
   exists ds, cells'. split; [exact DS|]. intros f Hf.
-  destruct (P Sm dstate0 [] (conj eq_refl eq_refl)) as (dst' & _ & HH & _ & V).
-  exists dst'. destruct (V f Hf) as [_ V2]. split; [|exact HH].
+  destruct (P Sm dstate0 [] (conj eq_refl eq_refl)) as (dst' & _ & HH & V).
+  exists dst'. destruct (V f Hf) as [_ [V2 _]]. split; [|exact HH].
   cbn in B. rewrite B. rewrite <- (app_nil_r bs). apply (V2 a ty fs eq_refl).
 Qed.
 (* ---- streams: n values written one after the other with one encoder (its tables persisting),
@@ -530,18 +811,18 @@ Proof.
     intros _ dst rest I. exists dst. split; [exact I|]. split; [rewrite app_nil_r; reflexivity|]. intros f _. reflexivity.
   - inversion HT as [|? ? (a & ty & fs & EV & Sv) Hr]; subst.
     cbn [write_items] in W. destruct (write_data (VStruct a ty fs) st) as [s1| | |] eqn:E1; try discriminate.
-    destruct (graph_roundtrip _ _ st s1 En Sv C E1) as (C1 & N1 & G1 & b1 & d1 & c1 & B1 & D1 & P1).
+    destruct (graph_roundtrip _ _ st s1 En Sv C E1) as (C1 & N1 & G1 & b1 & d1 & c1 & B1 & LB1 & D1 & P1).
     assert (En1 : enm s1 = nm) by (rewrite N1; exact En).
     destruct (IH s1 st' Hr En1 C1 W) as (C2 & N2 & G2 & b2 & ds & c2 & B2 & D2 & P2).
     split; [exact C2|]. split; [rewrite N2; exact N1|]. split; [eapply grows_trans; eassumption|].
     exists (b1 ++ b2), (d1 :: ds), (c1 ++ c2). split; [rewrite B2, B1, <- app_assoc; reflexivity|].
     split; [econstructor; eassumption|].
     intros Sm dst rest I.
-    destruct (P1 (small_back _ _ G2 Sm) dst (b2 ++ rest) I) as (dst1 & I1 & H1 & _ & V1).
+    destruct (P1 (small_back _ _ G2 Sm) dst (b2 ++ rest) I) as (dst1 & I1 & H1 & V1).
     destruct (P2 Sm dst1 rest I1) as (dst2 & I2 & H2' & V2).
     exists dst2. split; [exact I2|]. split; [rewrite H2', H1, <- app_assoc; reflexivity|].
     intros f Hf. cbn [need_ditems] in Hf. cbn [length read_n]. rewrite <- app_assoc.
-    destruct (V1 f ltac:(lia)) as [_ V1b]. rewrite (V1b a ty fs eq_refl). cbn [bind]. rewrite V2 by lia. reflexivity.
+    destruct (V1 f ltac:(lia)) as [_ [V1b _]]. rewrite (V1b a ty fs eq_refl). cbn [bind]. rewrite V2 by lia. reflexivity.
 Qed.
 
 (* ToObject(ToBytes(v)) with the fuel the decoder model gives itself *)
@@ -566,7 +847,8 @@ Lemma dg_extends : forall refs v d cells refs', dg refs v d cells refs' -> exist
 with dgs_extends : forall refs l ds cells refs', dgs refs l ds cells refs' -> exists more, refs' = refs ++ more.
 Proof.
   - intros refs v d cells refs' H. destruct H; try (exists []; rewrite app_nil_r; reflexivity).
-    destruct (dgs_extends _ _ _ _ _ H0) as [more E]. exists ((a, RStruct) :: more). rewrite E, <- app_assoc. reflexivity.
+    + destruct (dgs_extends _ _ _ _ _ H0) as [more E]. exists ((a, RStruct) :: more). rewrite E, <- app_assoc. reflexivity.
+    + destruct (dgs_extends _ _ _ _ _ H) as [more E]. exists ((0, RSlice) :: more). rewrite E, <- app_assoc. reflexivity.
   - intros refs l ds cells refs' H. destruct H; [exists []; rewrite app_nil_r; reflexivity|].
     destruct (dg_extends _ _ _ _ _ H) as [m1 E1]. destruct (dgs_extends _ _ _ _ _ H0) as [m2 E2].
     exists (m1 ++ m2). rewrite E2, E1, <- app_assoc. reflexivity.
